@@ -1,5 +1,6 @@
 import ServiceModel.Proofs.Reachable
 import ServiceModel.Proofs.Finished
+import ServiceModel.Proofs.Restart
 /-!
 # C16 — Finished batches and contexts leave nothing behind
 -/
@@ -57,5 +58,18 @@ theorem finished_context_removed_with_its_batch (hc : CfgOK cfg p) {s : State} (
     (¬ x.finished → ∃ y, Map.get (expireBatch s c).s.ctxs c = some y ∧ y.bstate = .completed ∧ y.state = x.state ∧
       y.batch = x.batch) :=
   expireBatch_ctx_fate s c x (reachable_inv hc hr) hq hx (expireBatch_nopanic (reachable_inv hc hr) c)
+
+/-- No orphans in any state of a chain that goes through any number of zero-height restarts (the import starts with no
+    request, response or marker at all): every request record belongs to the current batch of an existing context, every
+    response has its request, every marker its request, and the two pending-request indexes list the same requests. -/
+theorem no_orphans_across_restarts (hc : CfgOK cfg p) {s : State} (hr : ReachableR cfg p h0 t0 s) :
+    (∀ r q, Map.get s.reqs r = some q →
+      ∃ x, Map.get s.ctxs r.ctx = some x ∧ r.batch = x.batch ∧ Map.get s.expH r.ctx = some q.expH) ∧
+    (∀ r, (Map.get s.resps r).isSome → (Map.get s.reqs r).isSome ∧ r ∉ s.activeI) ∧
+    (∀ r, r ∈ s.activeI → (Map.get s.reqs r).isSome) ∧
+    (∀ svc pv e r, (svc, pv, e, r) ∈ s.activeB ↔
+      (r ∈ s.activeI ∧ ∃ q x, Map.get s.reqs r = some q ∧ Map.get s.ctxs r.ctx = some x ∧ svc = x.svc ∧ pv = q.prov ∧ e = q.expH)) :=
+  let h := (reachableR_invAll hc hr).inv.x
+  ⟨h.reqCtx, h.respReq, h.activeReq, h.activeMirror⟩
 
 end SM.C16
